@@ -113,7 +113,7 @@ def cases(tier, inst):
     # the variable's type exist elsewhere in the program (the registry is not a substitute for a domain that was given)
     for kind in DOMSHAPES:
         for t in trees_by_depth(REPRESENTATIVE_8 if tier == "thorough" else REPRESENTATIVE_4, 1):
-            for style in ("let", "from", "lettuple", "letgen"):
+            for style in ("let", "from", "lettuple", "letgen", "letn"):
                 yield (t, style, "dom:" + kind)
     # three operands given to and_() / or_() / entity()
     for a, b, c in itertools.product(REPRESENTATIVE_8 if tier == "thorough" else REPRESENTATIVE_4, repeat=3):
